@@ -181,6 +181,47 @@ type vf43Comp struct {
 	wcFail         bool // a switch failed with neither an injected fault nor a broken metabase file
 	injFail        bool // an injected refusal happened in this case
 	startupFail    bool
+
+	// what has been observed (SetMode results and GetMode only) since the most recent
+	// failed switch / failed startup: nothing, only SetMode(m) == nil with m equal to the
+	// mode reported before the call, or at least one SetMode(m) == nil that changed the
+	// reported mode.  The documentation promises that either kind of successful switch
+	// puts every component into m ("all mode changing operations are idempotent").
+	since int
+	via   []string // modes of the successful switches since the most recent failure
+}
+
+const (
+	vf43SinceNone     = iota // no SetMode returned nil since the most recent failed switch
+	vf43SinceSameOnly        // only SetMode(already reported mode) returned nil since
+	vf43SinceChanged         // >= 1 SetMode that changed the reported mode returned nil since
+)
+
+var vf43SinceNames = []string{"no-successful-switch-since", "only-same-mode-switches-since", "mode-change-since"}
+
+// switchFailed / switchOK advance the since-shape from the observed SetMode outcome.
+func (c *vf43Comp) switchFailed() { c.since, c.via = vf43SinceNone, nil }
+
+func (c *vf43Comp) switchOK(from, to mode.Mode) {
+	if c.cause() == "no-failed-switch-so-far" {
+		return
+	}
+	c.via = append(c.via, to.String())
+	if from != to {
+		c.since = vf43SinceChanged
+	} else if c.since == vf43SinceNone {
+		c.since = vf43SinceSameOnly
+	}
+}
+
+// shape = sticky cause of the case + what happened since the most recent failure; it is
+// the history part of every class key.
+func (c *vf43Comp) shape() string {
+	cs := c.cause()
+	if cs == "no-failed-switch-so-far" {
+		return cs
+	}
+	return cs + "|" + vf43SinceNames[c.since]
 }
 
 func (c *vf43Comp) setAll(m mode.Mode) { c.wc, c.blob, c.meta = m.String(), m.String(), m.String() }
@@ -262,7 +303,11 @@ func (c *vf43Comp) cause() string {
 }
 
 func (c *vf43Comp) String() string {
-	return fmt.Sprintf("wc=%s blob=%s meta=%s", c.wc, c.blob, c.meta)
+	s := fmt.Sprintf("wc=%s blob=%s meta=%s", c.wc, c.blob, c.meta)
+	if c.cause() != "no-failed-switch-so-far" {
+		s += fmt.Sprintf("; successful switches since the most recent failed one: %v", c.via)
+	}
+	return s
 }
 
 type vf43Case struct {
@@ -280,8 +325,11 @@ type vf43Case struct {
 	trace  []string
 	step   int
 	final  bool // judging the final return to read-write
-	failed bool // a violation was reported: the case stops (later steps would only repeat it)
+	failed bool // a violation was reported in the current step: the rest of the step is skipped, the history goes on
 	fatal  bool // panic / harness trouble: stop immediately
+
+	lastSwitchFailed bool // the most recent SetMode returned an error
+	probeAfterRepair bool // the next accepted Put is the first one after a mode-changing switch that followed a failed one
 }
 
 func (c *vf43Case) desc() map[string]any {
@@ -295,7 +343,8 @@ func (c *vf43Case) violate(what, detail string) {
 	if c.final {
 		what = "after-return-to-read-write|" + what
 	}
-	key := fmt.Sprintf("%s|reported=%s|%s", what, rm, c.comp.cause())
+	key := fmt.Sprintf("%s|reported=%s|%s", what, rm, c.comp.shape())
+	c.r.Count("divergences_"+vf43SinceNames[c.comp.since], 1)
 	c.r.Violation(key, fmt.Sprintf("%s while the shard reports %s (components per documented switch order: %s): %s", what, rm, c.comp, detail), c.desc())
 	c.r.Seen("violating_component_pictures", fmt.Sprintf("%s reported=%s %s", what, rm, c.comp))
 	c.failed = true
@@ -343,7 +392,7 @@ func (c *vf43Case) guard(op string, f func()) (panicked bool) {
 		if c.final {
 			what = "after-return-to-read-write|" + what
 		}
-		c.r.Violation(fmt.Sprintf("%s|reported=%s|%s", what, rm, c.comp.cause()),
+		c.r.Violation(fmt.Sprintf("%s|reported=%s|%s", what, rm, c.comp.shape()),
 			fmt.Sprintf("%s panicked while the shard reports %s (components per documented switch order: %s): %v at %s", op, rm, c.comp, p, frame), d)
 		c.r.Seen("panic_frames", frame)
 		c.failed = true
@@ -369,7 +418,7 @@ func (c *vf43Case) put(tag string) {
 	cls := vf43ErrClass(err)
 	c.trace = append(c.trace, fmt.Sprintf("%s@%s:%s", tag, rm, cls))
 	c.r.Count("put_"+rm.String()+"_"+cls, 1)
-	c.r.Distinct(fmt.Sprintf("put|%s|%s|%v|%s", rm, cls, c.env.withWC, c.comp.diverged(rm)))
+	c.r.Distinct(fmt.Sprintf("put|%s|%s|%v|%s|%s", rm, cls, c.env.withWC, c.comp.diverged(rm), c.comp.shape()))
 	u := &vf43Obj{addr: o.Address(), obj: o, bin: o.Marshal(), putStep: c.step, putMode: rm, viaMeta: !rm.NoMetabase()}
 	switch {
 	case rm.ReadOnly() && err == nil:
@@ -398,7 +447,11 @@ func (c *vf43Case) put(tag string) {
 		c.r.Count("writes_accepted_as_demanded", 1)
 		u.state = vf43Live
 		c.objs = append(c.objs, u)
+		if c.probeAfterRepair {
+			c.r.Count("writes_accepted_after_mode_change_following_failed_switch", 1)
+		}
 	}
+	c.probeAfterRepair = false
 }
 
 func (c *vf43Case) pickLive(needMeta bool) *vf43Obj {
@@ -554,10 +607,12 @@ func (c *vf43Case) metaReads() {
 		if u.state == vf43Live && u.viaMeta {
 			if !got[u.addr] {
 				c.violate("listing-misses-stored-object", fmt.Sprintf("List lacks %s (put at step %d in %s)", u.addr, u.putStep, u.putMode))
+				u.state = vf43Unknown
 				return
 			}
 			if u.addr.Container() == selCnr && !livePerCnrPhy[u.addr] {
 				c.violate("listing-misses-stored-object", fmt.Sprintf("Select(phy) lacks %s (put at step %d in %s)", u.addr, u.putStep, u.putMode))
+				u.state = vf43Unknown
 				return
 			}
 		}
@@ -606,6 +661,9 @@ func (c *vf43Case) audit(_ bool) {
 			default:
 				c.r.Count("reads_served_as_demanded", 1)
 			}
+			if c.failed {
+				u.state = vf43Unknown // reported once; the history goes on
+			}
 		case vf43Removed:
 			if rm.NoMetabase() {
 				continue
@@ -617,6 +675,7 @@ func (c *vf43Case) audit(_ bool) {
 			c.r.Count("removed_reads_checked", 1)
 			if gerr == nil {
 				c.violate("removed-object-readable", fmt.Sprintf("Get(%s) of an object removed in read-write succeeded", u.addr))
+				u.state = vf43Unknown // reported once; the history goes on
 			}
 		}
 	}
@@ -651,6 +710,11 @@ func (c *vf43Case) setMode(to mode.Mode, failAt string) (err error) {
 	c.trace = append(c.trace, fmt.Sprintf("setmode %s->%s fail@%s meta-file-broken=%v: %s, reports %s", from, to, failAt, c.env.metaBroken, out, after))
 	c.r.Count("setmode_"+out, 1)
 	c.r.Seen("transitions", fmt.Sprintf("%s->%s:%s", from, to, out))
+	c.lastSwitchFailed = err != nil
+	if err != nil {
+		c.comp.switchFailed()
+		c.probeAfterRepair = false
+	}
 	switch {
 	case err == nil:
 		if failAt != "" {
@@ -659,6 +723,14 @@ func (c *vf43Case) setMode(to mode.Mode, failAt string) (err error) {
 			c.r.Count("injected_failure_not_consumed", 1)
 		}
 		c.comp.apply(to, "", false)
+		c.comp.switchOK(from, to)
+		if c.comp.cause() != "no-failed-switch-so-far" {
+			c.r.Count("successful_switches_after_failed_switch_"+vf43SinceNames[c.comp.since], 1)
+			if from != to {
+				c.r.Seen("mode_changes_after_failed_switch", fmt.Sprintf("%s->%s", from, to))
+				c.probeAfterRepair = !to.ReadOnly()
+			}
+		}
 		if after != to {
 			c.violate("setmode-ok-but-other-mode-reported", fmt.Sprintf("SetMode(%s) returned nil, GetMode() = %s", to, after))
 		}
@@ -788,6 +860,7 @@ func vf43Run(r *verifkit.Run, h *verifkit.Hooks, root string, ci int, kind strin
 		c.put("fill-late")
 	}
 	c.remove(rng.IntN(2) == 0)
+	c.failed = false
 
 	switch kind {
 	case "startup":
@@ -820,6 +893,7 @@ func vf43Run(r *verifkit.Run, h *verifkit.Hooks, root string, ci int, kind strin
 		c.trace = append(c.trace, "restart over unopenable metabase: reports "+rm.String())
 		c.comp.setAll(rm)
 		c.comp.startupFail = true
+		c.comp.switchFailed()
 		// objects whose metadata cannot be consulted now: in modes with metabase the
 		// statement demands service, in degraded ones the bytes
 		c.step = 1000
@@ -839,7 +913,33 @@ func vf43Run(r *verifkit.Run, h *verifkit.Hooks, root string, ci int, kind strin
 		c.finish()
 	default:
 		nSteps := 20 + rng.IntN(30)
-		for c.step = 1; c.step <= nSteps && !c.failed && !c.fatal; c.step++ {
+		for c.step = 1; c.step <= nSteps && !c.fatal; c.step++ {
+			// a divergence does not end the history: the statement quantifies over ANY
+			// sequence of mode changes, the ones that follow a divergence included
+			c.failed = false
+			if c.lastSwitchFailed && rng.IntN(100) < 50 {
+				// the operator reacts to a failed switch: 1..3 fault-free switches to
+				// random modes (in kind 'real' the file may still be unopenable), write
+				// acceptance probed and everything read back after each of them
+				c.lastSwitchFailed = false
+				c.r.Count("recovery_walks", 1)
+				for i, n := 0, 1+rng.IntN(3); i < n && !c.fatal; i++ {
+					c.failed = false
+					_ = c.setMode(vf43AllModes[rng.IntN(len(vf43AllModes))], "")
+					if c.failed || c.fatal {
+						continue
+					}
+					c.put("probe")
+					if !c.failed && !c.fatal && rng.IntN(2) == 0 {
+						c.metaReads()
+					}
+					if i+1 < n {
+						c.afterStep()
+					}
+				}
+				c.afterStep()
+				continue
+			}
 			switch k := rng.IntN(100); {
 			case k < 38:
 				to := vf43AllModes[rng.IntN(len(vf43AllModes))]
@@ -922,7 +1022,7 @@ func TestVerif_C43(t *testing.T) {
 	h := verifkit.InstallHooks()
 	defer h.Uninstall()
 
-	nInj, nReal, nStart, nClean := r.Pick(60, 1500), r.Pick(30, 600), r.Pick(8, 100), r.Pick(20, 300)
+	nInj, nReal, nStart, nClean := r.Pick(50, 1500), r.Pick(26, 600), r.Pick(8, 100), r.Pick(14, 300)
 	for ci := 0; ci < nClean; ci++ {
 		vf43Run(r, h, root, ci, "clean")
 	}
